@@ -10,6 +10,7 @@ mod engine_blob;
 mod engine_cabi;
 mod engine_io;
 mod engine_sched;
+mod engine_upgrade;
 mod json;
 mod prng;
 mod simio;
@@ -23,7 +24,7 @@ use std::process::{Command, Stdio};
 use std::time::{Duration, Instant};
 
 fn engines() -> Vec<Box<dyn Engine>> {
-    vec![Box::new(engine_io::IoEngine), Box::new(engine_blob::BlobEngine), Box::new(engine_cabi::CabiEngine), Box::new(engine_sched::SchedEngine)]
+    vec![Box::new(engine_io::IoEngine), Box::new(engine_blob::BlobEngine), Box::new(engine_cabi::CabiEngine), Box::new(engine_sched::SchedEngine), Box::new(engine_upgrade::UpgradeEngine)]
 }
 
 fn engine_for(id: &str) -> Option<Box<dyn Engine>> {
